@@ -66,7 +66,8 @@ def parse_trans(text):
 
 def run(ck):
     ck.rule = ("supercell dictionaries of generated Interstitial and VacancyMediated (Nthermo=1) calculators on 3-D crystals "
-               "(supercells n*I and anisotropic) -> archive in memory -> every member examined; an evaluation = one archive member "
+               "(supercells n*I and anisotropic; always including binary/ternary hosts with solute and multi-species hosts with an interstitial "
+               "sublattice, i.e. three or more non-empty species blocks) -> archive in memory -> every member examined; an evaluation = one archive member "
                "checked (structure file, transformation file, Makefile rule, tag entry); distinct = distinct (crystal, supercell, "
                "member); non-trivial = structure/transformation files and rules (not the tag entries)")
     ck.trusted += ["harness/c30.py, sclib.py: reading the archive with the tarfile module, own parser for trans.* and the Makefile rules",
@@ -103,41 +104,71 @@ def run(ck):
     jobs = []
     ncalc = ck.n(3, 10)
     scratch = tempfile.mkdtemp(prefix="c30_")
+
+    def do_case(kind, label, crys, chem, m, fixed=False):
+        """one calculator + supercell matrix -> dictionary -> archive -> checks; returns True if an archive was examined"""
+        if not all(isinstance(x, str) for x in crys.chemistry):
+            crys = crystal.Crystal(crys.lattice, crys.basis, chemistry=[str(x) for x in crys.chemistry])
+        try:
+            net = gen.percolating_network(crys, chem, rng, maxjumps=40)
+        except Exception:
+            skipped["construct-failed"] += 1; return False
+        if net is None: skipped["nonpercolating"] += 1; return False
+        cut, sl, jn = net
+        try:
+            d = OnsagerCalc.Interstitial(crys, chem, sl, jn) if kind == "interstitial" else OnsagerCalc.VacancyMediated(crys, chem, sl, jn, 1)
+        except Exception:
+            skipped["construct-failed"] += 1; return False
+        if kind == "vacancy" and len(d.kinetic.states) > 250 and not fixed: return False
+        if m is None:
+            m = rng.choice([2, 2, 3]) * np.eye(3, dtype=int) if rng.random() < 0.7 else np.diag([rng.choice([2, 3]) for _ in range(3)])
+        if crys.N * abs(int(round(np.linalg.det(m)))) > 60: m = 2 * np.eye(3, dtype=int)
+        spec = dict(label=label, lattice=crys.lattice.tolist(), basis=[[u.tolist() for u in b] for b in crys.basis], chem=chem,
+                    cutoff=cut, supercell=m.tolist(), calculator=kind)
+        with warnings.catch_warnings():
+            warnings.simplefilter("ignore")
+            try:
+                sd = d.makesupercells(m)
+            except Exception as e:
+                return True    # C29's business
+        if any(len(v) != 2 for v in sd["transmapping"].values()): return True   # C29 finding (dropped mapping); not an input here
+        stats["archives"] += 1
+        nonempty = max(sum(1 for l in sup.chemorder if l) for sup in sd["states"].values())
+        stats["max_nonempty_species"] = max(stats["max_nonempty_species"], nonempty)
+        if nonempty >= 3: stats["archives_with_3plus_species"] += 1
+        job = check_archive(ck, automator, violation, stats, sd, spec, label, scratch, rng)
+        if job: jobs.append(job)
+        return True
+
+    def A(*x): return np.array(x, dtype=float)
+    # hosts with two or more species (+ solute / + interstitial sublattice): three or more non-empty species blocks in every
+    # structure file, so that the per-species index offsets of the transformation files are exercised beyond the second block
+    b2 = crystal.Crystal(np.eye(3), [[A(0, 0, 0)], [A(.5, .5, .5)]], chemistry=["A", "B"])
+    l12 = crystal.Crystal(np.eye(3), [[A(0, 0, 0)], [A(.5, .5, 0), A(.5, 0, .5), A(0, .5, .5)]], chemistry=["Au", "Cu"])
+    tern = crystal.Crystal(np.eye(3), [[A(0, 0, 0)], [A(.5, .5, .5)], [A(.5, .5, 0)]], chemistry=["A", "B", "C"])
+    b2i = b2.addbasis(b2.Wyckoffpos(A(.5, 0, 0)), chemistry=["I"])
+    terni = tern.addbasis(tern.Wyckoffpos(A(.5, 0, .5)), chemistry=["I"])
+    two, three = 2 * np.eye(3, dtype=int), 3 * np.eye(3, dtype=int)
+    fixed = [("vacancy", "B2 binary host + solute", b2, 0, two), ("vacancy", "L1_2 binary host + solute", l12, 1, two),
+             ("vacancy", "ternary host + solute", tern, 0, two), ("interstitial", "B2 host + interstitial sublattice", b2i, 2, two)]
+    if not ck.quick:
+        fixed += [("vacancy", "B2 binary host + solute", b2, 1, three), ("vacancy", "ternary host + solute", tern, 1, np.diag([2, 2, 3])),
+                  ("interstitial", "ternary host + interstitial sublattice", terni, 3, two),
+                  ("interstitial", "B2 host + interstitial sublattice", b2i, 2, np.diag([2, 3, 2]))]
+    stats["max_nonempty_species"] = 0
+    stats["archives_with_3plus_species"] = 0
     try:
+        for kind, label, crys, chem, m in fixed:
+            do_case(kind, label, crys, chem, m, fixed=True)
+        if stats["archives_with_3plus_species"] == 0:
+            raise RuntimeError("generator did not produce a supercell dictionary with three or more non-empty species")
         for kind in ("interstitial", "vacancy"):
             made = 0
             names = ["hcp-oct-tet", "fcc-oct-tet", "bcc-tet", "sc", "b2-1", "polar2w"] if kind == "interstitial" else \
                     ["sc", "fcc", "bcc", "hcp", "b2", "diamond", "polar", "tet"]
             for label, crys, chem in gen.pool(rng, 6 * ncalc, dims=(3,), names=names, random_frac=0.3, maxatoms=2):
                 if made >= ncalc: break
-                if not all(isinstance(x, str) for x in crys.chemistry):
-                    crys = crystal.Crystal(crys.lattice, crys.basis, chemistry=[str(x) for x in crys.chemistry])
-                try:
-                    net = gen.percolating_network(crys, chem, rng, maxjumps=40)
-                except Exception:
-                    skipped["construct-failed"] += 1; continue
-                if net is None: skipped["nonpercolating"] += 1; continue
-                cut, sl, jn = net
-                try:
-                    d = OnsagerCalc.Interstitial(crys, chem, sl, jn) if kind == "interstitial" else OnsagerCalc.VacancyMediated(crys, chem, sl, jn, 1)
-                except Exception:
-                    skipped["construct-failed"] += 1; continue
-                if kind == "vacancy" and len(d.kinetic.states) > 250: continue
-                made += 1
-                m = rng.choice([2, 2, 3]) * np.eye(3, dtype=int) if rng.random() < 0.7 else np.diag([rng.choice([2, 3]) for _ in range(3)])
-                if crys.N * abs(int(round(np.linalg.det(m)))) > 60: m = 2 * np.eye(3, dtype=int)
-                spec = dict(label=label, lattice=crys.lattice.tolist(), basis=[[u.tolist() for u in b] for b in crys.basis], chem=chem,
-                            cutoff=cut, supercell=m.tolist(), calculator=kind)
-                with warnings.catch_warnings():
-                    warnings.simplefilter("ignore")
-                    try:
-                        sd = d.makesupercells(m)
-                    except Exception as e:
-                        continue    # C29's business
-                if any(len(v) != 2 for v in sd["transmapping"].values()): continue   # C29 finding (dropped mapping); not an input here
-                stats["archives"] += 1
-                job = check_archive(ck, automator, violation, stats, sd, spec, label, scratch, rng)
-                if job: jobs.append(job)
+                if do_case(kind, label, crys, chem, None): made += 1
     finally:
         shutil.rmtree(scratch, ignore_errors=True)
 
